@@ -141,6 +141,38 @@ let run () =
              List.iter (fun (x, y) -> Printf.printf " %s %s;" (hx x) (hx y)) path
          | None -> Printf.printf " | 0 |");
         print_newline ()
+    | "RRTCN" :: maxd :: rest ->
+        let maxd = float_of_string maxd in
+        let rest = ref rest in
+        let next () = match !rest with x :: t -> rest := t; x | [] -> "0" in
+        let nf () = float_of_string (next ()) in
+        let _ = next () in let nw = int_of_string (next ()) in
+        let walls = List.init nw (fun _ -> let w = nf () in let lo = nf () in let hi = nf () in (w, lo, hi)) in
+        let pts () = let _ = next () in let n = int_of_string (next ()) in List.init n (fun _ -> let x = nf () in let y = nf () in (x, y)) in
+        let starts = pts () in let goals = pts () in
+        let _ = next () in let nc = int_of_string (next ()) in
+        let calls = List.init nc (fun _ -> pts ()) in
+        let dist (ax, ay) (bx, by) = let dx = ax -. bx and dy = ay -. by in sqrt (0.0 +. dx *. dx +. dy *. dy) in
+        let steer (nx, ny) (rx, ry) =
+          let d = dist (nx, ny) (rx, ry) in
+          if d > maxd then (let t = maxd /. d in let x = nx +. (rx -. nx) *. t and y = ny +. (ry -. ny) *. t in
+                            if x = nx && y = ny then None else Some ((x, y), false))
+          else Some ((rx, ry), true) in
+        let touches (w, lo, hi) (ax, ay) (bx, by) =
+          if (ax -. w) *. (bx -. w) > 0.0 then false
+          else if ax = bx then (if ay <= by then ay <= hi && lo <= by else by <= hi && lo <= ay)
+          else (let t = (w -. ax) /. (bx -. ax) in let y = ay +. t *. (by -. ay) in lo <= y && y <= hi) in
+        let mv a b = not (List.exists (fun k -> touches k a b) walls) in
+        let gdist s = List.fold_left (fun acc g -> let d = dist s g in if d < acc then d else acc) infinity goals in
+        let (st, reps) = rc_solves dist (fun a b -> a < b) steer mv mv gdist goals (0.0, 0.0) (nat_of_int 100000) starts calls in
+        let dump t = Printf.printf " %d;" (List.length t); List.iter (fun ((x, y), p) -> Printf.printf " %s %s %d;" (hx x) (hx y) (match p with Some i -> int_of_nat i | None -> -1)) t in
+        Printf.printf "rrtcn"; dump st.c_ts; Printf.printf " /"; dump st.c_tg;
+        List.iter (fun rep -> match rep with
+         | Some ((path, approx), dd) ->
+             (if approx then Printf.printf " | 1 1 %s |" (match dd with Some d -> hx d | None -> "-") else Printf.printf " | 1 0 |");
+             List.iter (fun (x, y) -> Printf.printf " %s %s;" (hx x) (hx y)) path
+         | None -> Printf.printf " | 0 |") reps;
+        print_newline ()
     | "RRTN" :: maxd :: bias :: thr :: rest ->
         let maxd = float_of_string maxd and bias = float_of_string bias and thr = float_of_string thr in
         let rest = ref rest in
